@@ -449,6 +449,8 @@ func (iv integerValue) ToString(b io.Writer, s px.FormatContext, g px.RDetect) {
 			// The sign of a binary number precedes the radix prefix and the zero padding
 			sign = `-`
 			intString = intString[1:]
+		} else if f.Plus() != 0 && f.FormatChar() != 'p' {
+			sign = string(f.Plus())
 		}
 		totWidth := 0
 		if f.Width() > 0 {
